@@ -188,6 +188,9 @@ def run(ctx):
     for config in sorted(set(ctx.configs()) | set(['bundled-hash'])):
         prog = ctx.prog(config)
         total_statics = max(total_statics, static_inventory(ck, prog, config, 'C19-a'))
+        # ---- f  files are created under names the C library makes unique per call
+        from ..rules import extra as _x19
+        _x19.check_temp_unique(ck, prog, config, 'C19-f')
         # deny-list
         denied = 0
         sites = 0
